@@ -3,8 +3,8 @@
    directory that was pruned, and a directory is pruned only for one of the three reasons the code names (VCS metadata directory,
    unrelated to the explicit watches, ignored by the filter built so far).  The fuel from_origin gives the walk, one more than
    the number of entries of the listing, is enough for the stack to run empty. *)
-From Coq Require Import List Arith NArith String Ascii Bool Lia.
-From WX Require Import Base.Bytes Glob.Glob Glob.Gitignore Glob.PathLemmas Ignore.IgnoreFilter Ignore.IgnoreEquiv Gen.Origins_gen
+From Coq Require Import List Arith NArith String Ascii Bool Lia Permutation.
+From WX Require Import Base.Bytes Glob.Glob Glob.Gitignore Glob.PathLemmas Ignore.IgnoreFilter Ignore.IgnoreProofs Ignore.IgnoreEquiv Ignore.IgnoreKeys Gen.Origins_gen
      Discover.Discover Discover.DiscoverProofs Discover.DiscoverPrune.
 Import ListNotations.
 Open Scope string_scope.
@@ -398,50 +398,56 @@ Section Complete.
        the repaired code); as pinned
        (defer = false) also: ignored by the filter as it was while its parent was being listed *)
     Definition Reason (p : string) : Prop :=
-      (hard && vcs_dir p = true) \/ watch_related watches p = false \/
-      (exists t0, reach t0 /\ check_dir gm true (t_filter t0) p = false /\ (orig = true -> p <> base) /\
+      (hard && vcs_dir p = true /\ exists p0, (p0 = base \/ rdir p0) /\ In (p, KDir) (children fs p0)) \/
+      (watch_related watches p = false /\ (p = base \/ rdir p)) \/
+      (exists t0, reach t0 /\ In p (t_visit t0) /\ check_dir gm true (t_filter t0) p = false /\ (orig = true -> p <> base) /\
                   forall a, rdir a -> is_under a p = true -> a <> p -> Done t0 a) \/
       (defer = false /\ exists t0, reach t0 /\ check_dir gm true (t_filter t0) p = false).
 
-    Lemma ec_body_reason tr t0 e :
-      reach tr -> t_filter t0 = t_filter tr -> (forall p, In p (t_skip t0) -> Reason p) ->
+    Lemma ec_body_reason tr p0 t0 e :
+      reach tr -> (p0 = base \/ rdir p0) -> In e (children fs p0) ->
+      t_filter t0 = t_filter tr -> (forall p, In p (t_skip t0) -> Reason p) ->
       t_filter (ec_body t0 e) = t_filter tr /\ forall p, In p (t_skip (ec_body t0 e)) -> Reason p.
     Proof.
-      intros Hr F I. unfold ec_body. cbv zeta. destruct (must_skip base (t_skip t0) (fst e)); [split; assumption|].
-      destruct (snd e); [|split; assumption|split; assumption].
+      intros Hr Hp0 He F I. unfold ec_body. cbv zeta. destruct (must_skip base (t_skip t0) (fst e)); [split; assumption|].
+      destruct (snd e) eqn:K; [|split; assumption|split; assumption].
       destruct ((hard && vcs_dir (fst e)) || (negb defer && negb (check_dir gm true (t_filter t0) (fst e)))) eqn:Cn; [|split; assumption].
       split; [exact F|]. intros p [<-|Hp]; [|apply I; exact Hp].
-      apply orb_true_iff in Cn. destruct Cn as [Cn|Cn]; [left; exact Cn|].
-      apply andb_true_iff in Cn. destruct Cn as [Df Cn].
-      right. right. right. split; [destruct defer; [discriminate Df | reflexivity]|].
-      exists tr. split; [exact Hr|]. rewrite <- F. apply negb_true_iff. exact Cn.
+      apply orb_true_iff in Cn. destruct Cn as [Cn|Cn].
+      - left. split; [exact Cn|]. exists p0. split; [exact Hp0|]. rewrite <- K. destruct e; exact He.
+      - apply andb_true_iff in Cn. destruct Cn as [Df Cn].
+        right. right. right. split; [destruct defer; [discriminate Df | reflexivity]|].
+        exists tr. split; [exact Hr|]. rewrite <- F. apply negb_true_iff. exact Cn.
     Qed.
 
-    Lemma ec_fold_reason tr l : forall t0,
-      reach tr -> t_filter t0 = t_filter tr -> (forall p, In p (t_skip t0) -> Reason p) ->
+    Lemma ec_fold_reason tr p0 l : forall t0,
+      reach tr -> (p0 = base \/ rdir p0) -> (forall e, In e l -> In e (children fs p0)) ->
+      t_filter t0 = t_filter tr -> (forall p, In p (t_skip t0) -> Reason p) ->
       forall p, In p (t_skip (fold_left ec_body l t0)) -> Reason p.
     Proof.
-      induction l as [|e r IH]; intros t0 Hr F I; cbn [fold_left]; [exact I|].
-      destruct (ec_body_reason tr t0 e Hr F I) as (F1 & I1). exact (IH _ Hr F1 I1).
+      induction l as [|e r IH]; intros t0 Hr Hp0 Sub F I; cbn [fold_left]; [exact I|].
+      destruct (ec_body_reason tr p0 t0 e Hr Hp0 (Sub e (or_introl eq_refl)) F I) as (F1 & I1).
+      exact (IH _ Hr Hp0 (fun e' H => Sub e' (or_intror H)) F1 I1).
     Qed.
 
     Lemma step_reason t : reach t -> (forall p, In p (t_skip t) -> Reason p) -> forall p, In p (t_skip (step' t)) -> Reason p.
     Proof.
-      intros Hr I. destruct (reach_inv t Hr) as (_ & AD). unfold step. destruct (rev (t_visit t)) as [|p0 rr] eqn:R; [exact I|].
+      intros Hr I. destruct (reach_inv t Hr) as ((V & _ & _) & AD). unfold step. destruct (rev (t_visit t)) as [|p0 rr] eqn:R; [exact I|].
       assert (t_visit t = rev rr ++ [p0]) as Vs by (rewrite <- (rev_involutive (t_visit t)), R; reflexivity).
+      assert (In p0 (t_visit t)) as In0 by (rewrite Vs; apply in_or_app; right; left; reflexivity).
       set (t1 := mkT (rev rr) (t_skip t) (t_filter t) (t_files t)). cbv zeta.
       destruct (must_skip base (t_skip t1) p0); [exact I|].
       destruct (negb (orig && String.eqb p0 base) && negb (check_dir gm true (t_filter t1) p0)) eqn:Cd.
       { intros p [<-|Hp]; [|apply I; exact Hp]. apply andb_true_iff in Cd. destruct Cd as [Co Cd].
-        right. right. left. exists t. split; [exact Hr|]. split; [apply negb_true_iff; exact Cd|].
+        right. right. left. exists t. split; [exact Hr|]. split; [exact In0|]. split; [apply negb_true_iff; exact Cd|].
         split; [intros -> ->; rewrite String.eqb_refl in Co; discriminate Co|].
-        apply AD. rewrite Vs. apply in_or_app. right. left. reflexivity. }
+        apply AD. exact In0. }
       destruct (negb (watch_related watches p0)) eqn:W.
-      { intros p [<-|Hp]; [|apply I; exact Hp]. right. left. apply negb_true_iff. exact W. }
+      { intros p [<-|Hp]; [|apply I; exact Hp]. right. left. split; [apply negb_true_iff; exact W | apply V; exact In0]. }
       destruct (fs_get fs p0) as [[| |]|]; [|exact I|exact I|exact I].
       rewrite enum_children_fold. intros p Hp.
       destruct (discover_in_shape content fs p0 (fold_left ec_body (children fs p0) t1)) as (_ & S3 & _). rewrite S3 in Hp.
-      exact (ec_fold_reason t (children fs p0) t1 Hr eq_refl I p Hp).
+      exact (ec_fold_reason t p0 (children fs p0) t1 Hr (V p0 In0) (fun e H => H) eq_refl I p Hp).
     Qed.
 
     Lemma run_reach n : forall t, reach t -> reach (run' n t).
@@ -665,6 +671,59 @@ Section Complete.
       destruct (List.length fs); reflexivity.
   Qed.
 
+  (* ---------- what one turn adds: nothing, or exactly the ignore files of the directory it visits, in the order of the lookups *)
+  Definition dirfiles (k : string) : list dfile :=
+    flat_map (fun nt => if find_file fs (join k (fst nt)) then [mkDf (join k (fst nt)) (Some k) (snd nt)] else []) dir_files.
+
+  Lemma discover_in_exact dir t :
+    t_files (discover_in content fs dir t) = t_files t ++ dirfiles dir /\
+    t_filter (discover_in content fs dir t) = fold_left add_file (map (as_ifile content) (dirfiles dir)) (t_filter t).
+  Proof.
+    unfold discover_in, dirfiles. generalize dir_files. intro l0. revert t.
+    induction l0 as [|nt r IH]; intro t; cbn [fold_left flat_map]; [split; [rewrite app_nil_r; reflexivity | reflexivity]|].
+    destruct (find_file fs (join dir (fst nt))); [|cbn [app]; apply IH].
+    destruct (IH (mkT (t_visit t) (t_skip t) (add_file (t_filter t) (as_ifile content (mkDf (join dir (fst nt)) (Some dir) (snd nt))))
+                      (t_files t ++ [mkDf (join dir (fst nt)) (Some dir) (snd nt)]))) as (A & B).
+    cbn [t_files t_filter] in A, B. cbv zeta. split.
+    - rewrite A. rewrite <- app_assoc. reflexivity.
+    - rewrite B. reflexivity.
+  Qed.
+
+  (* the turn that visits a directory *)
+  Definition visits (t : tourist) (p0 : string) (rest : list string) : Prop :=
+    t_visit t = rest ++ [p0] /\ must_skip base (t_skip t) p0 = false /\
+    (orig && String.eqb p0 base) || check_dir gm true (t_filter t) p0 = true /\
+    watch_related watches p0 = true /\ fs_get fs p0 = Some KDir.
+
+  Lemma step_cases t :
+    (t_files (step' t) = t_files t /\ t_filter (step' t) = t_filter t /\
+     forall q, In q (t_visit (step' t)) -> In q (t_visit t)) \/
+    (exists p0 rest, visits t p0 rest /\
+       t_files (step' t) = t_files t ++ dirfiles p0 /\
+       t_filter (step' t) = fold_left add_file (map (as_ifile content) (dirfiles p0)) (t_filter t) /\
+       forall q, In q (t_visit (step' t)) -> In q rest \/ In (q, KDir) (children fs p0)).
+  Proof.
+    unfold step. destruct (rev (t_visit t)) as [|p0 rr] eqn:R; [left; split; [reflexivity|]; split; [reflexivity | intros q H; exact H]|].
+    assert (t_visit t = rev rr ++ [p0]) as Vs by (rewrite <- (rev_involutive (t_visit t)), R; reflexivity).
+    set (t1 := mkT (rev rr) (t_skip t) (t_filter t) (t_files t)). cbv zeta.
+    assert (forall q, In q (rev rr) -> In q (t_visit t)) as Sub by (intros q H; rewrite Vs; apply in_or_app; left; exact H).
+    assert (forall q, In q (t_visit (do_skip t1 p0)) -> In q (t_visit t)) as Sub2
+      by (intros q H; unfold do_skip in H; cbn [t_visit t1] in H; apply filter_In in H; apply Sub; apply H).
+    destruct (must_skip base (t_skip t1) p0) eqn:MS; [left; split; [reflexivity|]; split; [reflexivity | exact Sub]|].
+    destruct (negb (orig && String.eqb p0 base) && negb (check_dir gm true (t_filter t1) p0)) eqn:Cd;
+      [left; split; [reflexivity|]; split; [reflexivity | exact Sub2]|].
+    destruct (negb (watch_related watches p0)) eqn:W; [left; split; [reflexivity|]; split; [reflexivity | exact Sub2]|].
+    destruct (fs_get fs p0) as [[| |]|] eqn:G; [|left; split; [reflexivity|]; split; [reflexivity | exact Sub]..].
+    right. exists p0, (rev rr). split.
+    { split; [exact Vs|]. split; [exact MS|]. split; [|split; [apply negb_false_iff; exact W | exact G]].
+      cbn [t_filter t1] in Cd. destruct (orig && String.eqb p0 base); [reflexivity|]. cbn [negb andb orb] in *. apply negb_false_iff. exact Cd. }
+    rewrite enum_children_fold. destruct (ec_fold_same (children fs p0) t1) as (A & B).
+    destruct (discover_in_exact p0 (fold_left ec_body (children fs p0) t1)) as (C & D). rewrite A in C. rewrite B in D.
+    split; [exact C|]. split; [exact D|].
+    intros q Hq. destruct (discover_in_shape content fs p0 (fold_left ec_body (children fs p0) t1)) as (V3 & _ & _). rewrite V3 in Hq.
+    destruct (ec_fold_visit _ _ _ Hq) as [H|H]; [left; exact H | right; exact H].
+  Qed.
+
   (* completeness for the walk as from_origin runs it *)
   Theorem walk_complete_from_origin filt files :
     let t := run' (S (List.length fs)) (mkT [base] [] filt files) in
@@ -676,6 +735,304 @@ Section Complete.
     - left. exact D.
     - right. exists p. split; [exact Up|]. split; [exact Hp|]. exact (pruned_for_a_reason _ filt files p Hp).
   Qed.
+
+  (* ====================================================================================================================
+     The exact result, independent of the order in which directories are listed (repaired code).
+     A directory is OPEN when it and every directory above it (down from the origin) passes: it is related to the watches, is not
+     a VCS metadata directory and -- unless it is the origin -- is not ignored by the filter made of the base files and the
+     ignore files of the directories above it.  The walk returns exactly the ignore files of the open reachable directories. *)
+  Section Order.
+    Hypothesis rep_h : hard = true.
+    Hypothesis rep_d : defer = true.
+    Hypothesis rep_o : orig = true.
+    Hypothesis base_dir : fs_get fs base = Some KDir.
+    Variable B : list ifile.
+    Hypothesis B_abs : forall d l, In (Some d, l) B -> absolute d.
+    Variable files0 : list dfile.
+
+    Definition ink (k : string) (f : dfile) : bool := match d_in f with Some d => String.eqb d k | None => false end.
+    Definition anc (a : string) : list string :=
+      filter (fun k => is_under base k && negb (String.eqb k a)) (ancestors_of (S (String.length a)) a).
+    Definition above_files (a : string) : list dfile := flat_map dirfiles (anc a).
+    Definition Fc (a : string) : ifilter := filter_new base (B ++ map (as_ifile content) (above_files a)).
+    Definition pass (a : string) : bool :=
+      (String.eqb a base || check_dir gm true (Fc a) a) && watch_related watches a && (String.eqb a base || negb (vcs_dir a)).
+    Definition Open (d : string) : Prop := forall a, In a (d :: anc d) -> pass a = true.
+
+    (* ---- small facts *)
+    Lemma dirfiles_in k f : In f (dirfiles k) -> d_in f = Some k.
+    Proof.
+      unfold dirfiles. intro H. apply in_flat_map in H. destruct H as (nt & _ & H).
+      destruct (find_file fs (join k (fst nt))); [destruct H as [<-|[]]; reflexivity | destruct H].
+    Qed.
+
+    Lemma dirfiles_ink k k' : filter (ink k) (dirfiles k') = if String.eqb k' k then dirfiles k' else [].
+    Proof.
+      destruct (String.eqb k' k) eqn:E.
+      - apply filter_all. intros f Hf. unfold ink. rewrite (dirfiles_in k' f Hf). exact E.
+      - apply filter_none. intros f Hf. unfold ink. rewrite (dirfiles_in k' f Hf). exact E.
+    Qed.
+
+    Lemma flat_dirfiles_ink k L : NoDup L -> filter (ink k) (flat_map dirfiles L) = if mem_str k L then dirfiles k else [].
+    Proof.
+      induction L as [|x L IH]; intro ND; cbn [flat_map mem_str]; [reflexivity|]. inversion ND as [|y l' Hn Hd]; subst.
+      rewrite filter_app, dirfiles_ink, (IH Hd). rewrite (String.eqb_sym k x).
+      destruct (String.eqb x k) eqn:E.
+      - apply String.eqb_eq in E. subst x. assert (mem_str k L = false) as -> by (apply not_true_is_false; intro X; apply mem_str_In in X; contradiction).
+        cbn [orb]. apply app_nil_r.
+      - cbn [orb app]. reflexivity.
+    Qed.
+
+    Lemma ancestors_nodup n : forall a, absolute a -> NoDup (ancestors_of n a).
+    Proof.
+      induction n as [|n IH]; intros a Aa; cbn [ancestors_of]; [constructor|].
+      destruct (path_parent a) as [q|] eqn:P; [|constructor; [intros []|constructor]].
+      constructor; [|apply IH; exact (proj1 (parent_absolute a q Aa P))].
+      intro H. pose proof (chain_tail_shorter n a q a Aa P H). lia.
+    Qed.
+
+    Lemma anc_nodup a : absolute a -> NoDup (anc a).
+    Proof. intro Aa. unfold anc. apply NoDup_filter. apply ancestors_nodup. exact Aa. Qed.
+
+    Lemma anc_spec a k : absolute a ->
+      (In k (anc a) <-> absolute k /\ is_under k a = true /\ is_under base k = true /\ k <> a).
+    Proof.
+      intro Aa. unfold anc. rewrite filter_In. split.
+      - intros (H & C). apply andb_true_iff in C. destruct C as [C1 C2]. apply negb_true_iff in C2. apply String.eqb_neq in C2.
+        destruct (chain_props _ a k Aa H) as (Ak & Uk & _). repeat split; assumption.
+      - intros (Ak & Uk & Ub & Ne). split; [apply chain_complete; [lia | exact Aa | exact Ak | exact Uk]|].
+        rewrite Ub. cbn [andb]. apply negb_true_iff. apply String.eqb_neq. exact Ne.
+    Qed.
+
+    (* a strict ancestor (below the origin) of a reachable directory is reachable *)
+    Lemma rdir_anc d : rdir d -> forall k, In k (anc d) -> rdir k.
+    Proof.
+      induction 1 as [Hb|d c Hd IH Hc]; intros k Hk.
+      - apply (anc_spec base k base_abs) in Hk. destruct Hk as (_ & U1 & U2 & Ne). exfalso. apply Ne. apply is_under_antisym; assumption.
+      - destruct (cp d (c, KDir) Hc) as [Pc Ac]. cbn [fst] in Pc, Ac.
+        apply (anc_spec c k Ac) in Hk. destruct Hk as (Ak & U1 & U2 & Ne).
+        pose proof (under_parent k c d Ak U1 Ne Pc) as Ud.
+        destruct (string_dec k d) as [->|Nd]; [exact Hd|].
+        apply IH. apply (anc_spec d k (rdir_abs d Hd)). repeat split; assumption.
+    Qed.
+
+    (* the directories above a child: its parent and those above the parent *)
+    Lemma anc_child p0 c k : (p0 = base \/ rdir p0) -> In (c, KDir) (children fs p0) -> In k (anc c) -> k = p0 \/ In k (anc p0).
+    Proof.
+      intros Hp Hc Hk. assert (absolute p0) as Ap by (destruct Hp as [->|H]; [exact base_abs | apply rdir_abs; exact H]).
+      destruct (cp p0 (c, KDir) Hc) as [Pc Ac]. cbn [fst] in Pc, Ac.
+      apply (anc_spec c k Ac) in Hk. destruct Hk as (Ak & U1 & U2 & Ne).
+      pose proof (under_parent k c p0 Ak U1 Ne Pc) as Ud.
+      destruct (string_dec k p0) as [->|Nd]; [left; reflexivity|]. right.
+      apply (anc_spec p0 k Ap). repeat split; assumption.
+    Qed.
+
+    (* ---- the invariant of the walk's states *)
+    Definition OInv (t : tourist) : Prop :=
+      exists l,
+        t_files t = files0 ++ l /\
+        t_filter t = filter_new base (B ++ map (as_ifile content) l) /\
+        (forall f, In f l -> exists d, In f (dirfiles d) /\ rdir d /\ Open d) /\
+        (forall k, filter (ink k) l = [] \/ forall q, In q (t_visit t) -> is_under q k = false) /\
+        (forall q, In q (t_visit t) -> rdir q /\ (forall a, In a (anc q) -> pass a = true) /\ (q = base \/ vcs_dir q = false)) /\
+        (forall q, In q (t_visit t) -> forall k, In k (anc q) -> filter (ink k) l = dirfiles k).
+
+    Lemma globs_for_dfiles k (L : list dfile) :
+      (forall f, In f L -> exists d, d_in f = Some d) ->
+      globs_for k (map (as_ifile content) L) = globs_for k (map (as_ifile content) (filter (ink k) L)).
+    Proof.
+      intro H. rewrite (globs_for_filter k (map (as_ifile content) L)). f_equal.
+      induction L as [|f L IH]; cbn [map filter]; [reflexivity|].
+      assert (forall f0, In f0 L -> exists d, d_in f0 = Some d) as H' by (intros f0 H0; apply H; right; exact H0).
+      destruct (H f (or_introl eq_refl)) as (d & Ed).
+      assert (file_key (as_ifile content f) = d) as -> by (unfold file_key, as_ifile; cbn [fst]; rewrite Ed; reflexivity).
+      assert (ink k f = String.eqb d k) as -> by (unfold ink; rewrite Ed; reflexivity).
+      destruct (String.eqb d k); cbn [map]; rewrite (IH H'); reflexivity.
+    Qed.
+
+    (* the filter of a state decides about a directory waiting on the stack as the filter of the files above it does *)
+    Lemma filter_as_above t a : TInv t -> OInv t -> In a (t_visit t) ->
+      check_dir gm true (t_filter t) a = check_dir gm true (Fc a) a.
+    Proof.
+      intros (_ & E) (l & _ & F & W & G & V5 & V6) Ha. rewrite F. unfold Fc.
+      destruct (V5 a Ha) as (Ra & _ & _). pose proof (rdir_abs a Ra) as Aa.
+      apply check_dir_keys; [exact Aa| | |].
+      - intros d ls H. apply in_app_or in H. destruct H as [H|H]; [exact (B_abs d ls H)|].
+        apply in_map_iff in H. destruct H as (f & Ef & Hf). destruct (W f Hf) as (d0 & Hd0 & Rd0 & _).
+        unfold as_ifile in Ef. rewrite (dirfiles_in d0 f Hd0) in Ef. injection Ef as <- _. apply rdir_abs. exact Rd0.
+      - intros d ls H. apply in_app_or in H. destruct H as [H|H]; [exact (B_abs d ls H)|].
+        apply in_map_iff in H. destruct H as (f & Ef & Hf). unfold above_files in Hf. apply in_flat_map in Hf. destruct Hf as (k & Hk & Hf).
+        unfold as_ifile in Ef. rewrite (dirfiles_in k f Hf) in Ef. injection Ef as <- _.
+        apply (anc_spec a k Aa) in Hk. apply Hk.
+      - intros k Hk. rewrite !globs_for_app. f_equal.
+        rewrite (globs_for_dfiles k l), (globs_for_dfiles k (above_files a)).
+        2:{ intros f Hf. unfold above_files in Hf. apply in_flat_map in Hf. destruct Hf as (k0 & _ & Hf). exists k0. exact (dirfiles_in k0 f Hf). }
+        2:{ intros f Hf. destruct (W f Hf) as (d0 & Hd0 & _). exists d0. exact (dirfiles_in d0 f Hd0). }
+        f_equal. f_equal. unfold above_files. rewrite (flat_dirfiles_ink k (anc a) (anc_nodup a Aa)).
+        destruct (mem_str k (anc a)) eqn:M.
+        + apply mem_str_In in M. exact (V6 a Ha k M).
+        + (* k is the directory itself, or lies above the origin: nothing of it has been discovered *)
+          destruct (string_dec k a) as [->|Nka].
+          * destruct (G a) as [Z|Z]; [exact Z|]. pose proof (is_under_refl a) as X. rewrite (Z a Ha) in X. discriminate X.
+          * apply filter_none. intros f Hf. destruct (W f Hf) as (d0 & Hd0 & Rd0 & _). unfold ink. rewrite (dirfiles_in d0 f Hd0).
+            apply String.eqb_neq. intros ->. 
+            assert (In k (anc a)) as X; [|apply mem_str_In in X; rewrite X in M; discriminate M].
+            destruct (chain_props _ a k Aa Hk) as (Ak & Uk & _).
+            apply (anc_spec a k Aa). repeat split; [exact Ak | exact Uk | apply rdir_under_base; exact Rd0 | exact Nka].
+    Qed.
+
+    Lemma init_oinv : OInv (mkT [base] [] (filter_new base B) files0).
+    Proof.
+      exists []. split; [rewrite app_nil_r; reflexivity|]. split; [cbn [map]; rewrite app_nil_r; reflexivity|].
+      split; [intros f []|]. split; [intro k; left; reflexivity|].
+      assert (forall a, ~ In a (anc base)) as NoAnc.
+      { intros a Ha. apply (anc_spec base a base_abs) in Ha. destruct Ha as (_ & U1 & U2 & Ne). apply Ne. apply is_under_antisym; assumption. }
+      split.
+      - intros q [<-|[]]. split; [apply rd_base; exact base_dir|]. split; [intros a Ha; destruct (NoAnc a Ha) | left; reflexivity].
+      - intros q [<-|[]] k Hk. destruct (NoAnc k Hk).
+    Qed.
+
+    Lemma step_oinv t : TInv t -> OInv t -> OInv (step' t).
+    Proof.
+      intros TI OI. pose proof (fun a => filter_as_above t a TI OI) as K. destruct TI as (A & E). destruct OI as (l & F1 & F2 & W & G & V5 & V6).
+      destruct (step_cases t) as [(S1 & S2 & S3)|(p0 & rest & Vis & S1 & S2 & S3)].
+      - exists l. split; [rewrite S1; exact F1|]. split; [rewrite S2; exact F2|]. split; [exact W|].
+        split; [intro k; destruct (G k) as [Z|Z]; [left; exact Z | right; intros q Hq; apply Z; apply S3; exact Hq]|].
+        split; [intros q Hq; apply V5; apply S3; exact Hq | intros q Hq; apply V6; apply S3; exact Hq].
+      - destruct Vis as (Vs & MS & Cd & Wr & Gd).
+        assert (In p0 (t_visit t)) as In0 by (rewrite Vs; apply in_or_app; right; left; reflexivity).
+        destruct (V5 p0 In0) as (Rp0 & Pabove & Vc0). pose proof (rdir_abs p0 Rp0) as Ap0.
+        rewrite Vs in A. destruct (anti_snoc_inv rest p0 A) as (_ & Inc).
+        assert (forall q, In q rest -> In q (t_visit t)) as Sub by (intros q H; rewrite Vs; apply in_or_app; left; exact H).
+        assert (filter (ink p0) l = []) as Z0.
+        { destruct (G p0) as [Z|Z]; [exact Z|]. pose proof (Z p0 In0) as X. rewrite is_under_refl in X. discriminate X. }
+        assert (pass p0 = true) as Pp0.
+        { unfold pass. rewrite Wr. rewrite rep_o in Cd. cbn [andb] in Cd.
+          rewrite (K p0 In0) in Cd.
+          rewrite Cd. cbn [andb]. destruct Vc0 as [->|Vc0]; [rewrite String.eqb_refl; reflexivity | rewrite Vc0; apply orb_true_r]. }
+        assert (forall q, In (q, KDir) (children fs p0) -> is_under q p0 = false) as ChildNot.
+        { intros q Hq. destruct (child_under p0 (q, KDir) Ap0 Hq) as [U Ne]. cbn [fst] in U, Ne.
+          apply not_true_is_false. intro X. apply Ne. apply is_under_antisym; assumption. }
+        exists (l ++ dirfiles p0).
+        split; [rewrite S1, F1, app_assoc; reflexivity|].
+        split; [rewrite S2, F2; unfold filter_new; rewrite map_app, app_assoc, !fold_left_app; reflexivity|].
+        split.
+        { intros f Hf. apply in_app_or in Hf. destruct Hf as [Hf|Hf]; [exact (W f Hf)|].
+          exists p0. split; [exact Hf|]. split; [exact Rp0|]. intros a [<-|Ha]; [exact Pp0 | exact (Pabove a Ha)]. }
+        split.
+        { intro k. rewrite filter_app, dirfiles_ink. destruct (String.eqb p0 k) eqn:Ek.
+          - apply String.eqb_eq in Ek. subst k. right. intros q Hq. destruct (S3 q Hq) as [Hr|Hc]; [exact (proj1 (Inc q Hr)) | exact (ChildNot q Hc)].
+          - rewrite app_nil_r. destruct (G k) as [Z|Z]; [left; exact Z|]. right. intros q Hq. destruct (S3 q Hq) as [Hr|Hc]; [apply Z; apply Sub; exact Hr|].
+            apply not_true_is_false. intro X. destruct (child_under p0 (q, KDir) Ap0 Hc) as [U _]. cbn [fst] in U.
+            assert (is_under p0 k = true) as Y by (apply (is_under_trans p0 q k); [apply absolute_nonempty; exact Ap0 | exact U | exact X]).
+            rewrite (Z p0 In0) in Y. discriminate Y. }
+        split.
+        { intros q Hq. destruct (S3 q Hq) as [Hr|Hc]; [apply V5; apply Sub; exact Hr|].
+          split; [apply (rd_child p0); assumption|]. split.
+          - intros a Ha. destruct (anc_child p0 q a (or_intror Rp0) Hc Ha) as [->|Ha']; [exact Pp0 | exact (Pabove a Ha')].
+          - (* a child that is pushed is not a VCS metadata directory (repaired code) *)
+            right. destruct (vcs_dir q) eqn:Vq; [|reflexivity]. exfalso.
+            revert Hq. unfold step. destruct (rev (t_visit t)) as [|x rr] eqn:R; [rewrite Vs in R; rewrite rev_app_distr in R; discriminate R|].
+            assert (x = p0 /\ rev rr = rest) as (-> & Er).
+            { rewrite Vs, rev_app_distr in R. cbn [rev app] in R. injection R as <- <-. split; [reflexivity | apply rev_involutive]. }
+            cbv zeta. cbn [t_skip t_filter]. rewrite MS.
+            assert (negb (orig && String.eqb p0 base) && negb (check_dir gm true (t_filter t) p0) = false) as ->.
+            { destruct (orig && String.eqb p0 base); [reflexivity|]. cbn [orb] in Cd. rewrite Cd. reflexivity. }
+            rewrite Wr. cbn [negb]. rewrite Gd. rewrite enum_children_fold. intro Hq.
+            destruct (discover_in_shape content fs p0 (fold_left ec_body (children fs p0) (mkT (rev rr) (t_skip t) (t_filter t) (t_files t)))) as (V3 & _ & _).
+            rewrite V3 in Hq. clear V3.
+            (* no fold step pushes a VCS directory *)
+            assert (forall L t0, (forall x, In x (t_visit t0) -> x <> q) -> (forall e, In e L -> fst e = q -> True) ->
+                                 forall x, In x (t_visit (fold_left ec_body L t0)) -> x <> q) as NoPush.
+            { induction L as [|e L IHL]; intros t0 H0 _ x Hx; cbn [fold_left] in Hx; [apply H0; exact Hx|].
+              apply (IHL (ec_body t0 e)); [|intros; exact I|exact Hx].
+              intros y Hy. unfold ec_body in Hy. cbv zeta in Hy. destruct (must_skip base (t_skip t0) (fst e)); [apply H0; exact Hy|].
+              destruct (snd e); [|apply H0; exact Hy|apply H0; exact Hy].
+              destruct ((hard && vcs_dir (fst e)) || (negb defer && negb (check_dir gm true (t_filter t0) (fst e)))) eqn:Cn.
+              - unfold do_skip in Hy. cbn [t_visit] in Hy. apply filter_In in Hy. apply H0. apply Hy.
+              - cbn [t_visit] in Hy. apply in_app_or in Hy. destruct Hy as [Hy|[<-|[]]]; [apply H0; exact Hy|].
+                intros Eq. rewrite Eq, rep_h, Vq in Cn. discriminate Cn. }
+            apply (NoPush (children fs p0) (mkT (rev rr) (t_skip t) (t_filter t) (t_files t))) with (x := q); [|intros; exact I|exact Hq|reflexivity].
+            intros y Hy ->. cbn [t_visit] in Hy. rewrite Er in Hy. destruct (Inc q Hy) as [_ X].
+            destruct (child_under p0 (q, KDir) Ap0 Hc) as [U _]. cbn [fst] in U. rewrite U in X. discriminate X. }
+        { intros q Hq k Hk. rewrite filter_app, dirfiles_ink. destruct (S3 q Hq) as [Hr|Hc].
+          - (* an older entry: p0 is not above it *)
+            assert (String.eqb p0 k = false) as ->.
+            { apply String.eqb_neq. intros ->. destruct (V5 q (Sub q Hr)) as (Rq & _ & _).
+              apply (anc_spec q k (rdir_abs q Rq)) in Hk. destruct Hk as (_ & U & _ & _). destruct (Inc q Hr) as [_ X]. rewrite U in X. discriminate X. }
+            rewrite app_nil_r. exact (V6 q (Sub q Hr) k Hk).
+          - destruct (anc_child p0 q k (or_intror Rp0) Hc Hk) as [->|Hk'].
+            + rewrite String.eqb_refl, Z0. reflexivity.
+            + assert (String.eqb p0 k = false) as ->.
+              { apply String.eqb_neq. intros <-. apply (anc_spec p0 p0 Ap0) in Hk'. destruct Hk' as (_ & _ & _ & Ne). apply Ne. reflexivity. }
+              rewrite app_nil_r. exact (V6 p0 In0 k Hk'). }
+    Qed.
+
+    Let init := mkT [base] [] (filter_new base B) files0.
+
+    Lemma step_nil t : t_visit t = [] -> step' t = t.
+    Proof. intro H. unfold step. rewrite H. reflexivity. Qed.
+
+    Lemma init_tinv : TInv init.
+    Proof.
+      split; [constructor; [intros b []|constructor]|]. intros q [<-|[]]. split; [exact base_abs|]. exists KDir. apply fs_get_in. exact base_dir.
+    Qed.
+
+    Lemma reach_good t : reach init t -> TInv t /\ OInv t.
+    Proof.
+      induction 1 as [|t _ (TI & OI)]; [split; [exact init_tinv | exact init_oinv]|].
+      destruct (t_visit t) as [|q r] eqn:V; [rewrite (step_nil t V); split; assumption|].
+      assert (t_visit t <> []) as Ne by (rewrite V; discriminate).
+      split; [exact (proj1 (step_tinv t TI Ne)) | exact (step_oinv t TI OI)].
+    Qed.
+
+    Lemma on_chain d p : rdir d -> (p = base \/ rdir p) -> is_under p d = true -> In p (d :: anc d).
+    Proof.
+      intros Rd Hp U. destruct (string_dec p d) as [->|Ne]; [left; reflexivity|]. right.
+      apply (anc_spec d p (rdir_abs d Rd)).
+      split; [destruct Hp as [->|H]; [exact base_abs | apply rdir_abs; exact H]|]. split; [exact U|].
+      split; [destruct Hp as [->|H]; [apply is_under_refl | apply rdir_under_base; exact H] | exact Ne].
+    Qed.
+
+    Lemma dirfiles_done t d : Done t d -> forall f, In f (dirfiles d) -> In f (t_files t).
+    Proof.
+      intros D f Hf. unfold dirfiles in Hf. apply in_flat_map in Hf. destruct Hf as (nt & Hnt & Hf).
+      destruct (find_file fs (join d (fst nt))) eqn:Ff; [|destruct Hf]. destruct Hf as [<-|[]]. exact (D nt Hnt Ff).
+    Qed.
+
+    (* the walk returns exactly the ignore files of the open reachable directories *)
+    Theorem walk_exact :
+      let t := run' (S (List.length fs)) init in
+      forall f, In f (t_files t) <-> In f files0 \/ exists d, rdir d /\ Open d /\ In f (dirfiles d).
+    Proof.
+      intros t f.
+      assert (reach init t) as Rt by (apply run_reach; apply reach0).
+      destruct (reach_good t Rt) as (_ & (l & F1 & _ & W & _)).
+      split.
+      - intro H. rewrite F1 in H. apply in_app_or in H. destruct H as [H|H]; [left; exact H|].
+        right. destruct (W f H) as (d & Hd & Rd & Od). exists d. split; [exact Rd|]. split; assumption.
+      - intros [H|(d & Rd & Od & Hf)]; [rewrite F1; apply in_or_app; left; exact H|].
+        destruct (walk_complete_from_origin (filter_new base B) files0 d Rd) as [D|(p & Up & Hp & R)].
+        + apply (dirfiles_done t d); [exact D | exact Hf].
+        + exfalso. fold init in R. destruct R as [(Vc & p0 & Hp0 & Hc)|[(Wr & Hrp)|[(t0 & R0 & In0 & Cd & Nb & _)|(X & _)]]].
+          * assert (rdir p0) as Rp0 by (destruct Hp0 as [->|H]; [apply rd_base; exact base_dir | exact H]).
+            assert (rdir p) as Rp by (apply (rd_child p0); assumption).
+            pose proof (Od p (on_chain d p Rd (or_intror Rp) Up)) as P. unfold pass in P.
+            rewrite rep_h in Vc. cbn [andb] in Vc. rewrite Vc in P. cbn [negb] in P. rewrite orb_false_r in P.
+            apply andb_true_iff in P. destruct P as [_ P]. apply String.eqb_eq in P. subst p.
+            destruct (child_under p0 (base, KDir) (rdir_abs p0 Rp0) Hc) as [U Ne]. cbn [fst] in U, Ne.
+            apply Ne. apply is_under_antisym; [apply rdir_under_base; exact Rp0 | exact U].
+          * pose proof (Od p (on_chain d p Rd Hrp Up)) as P. unfold pass in P. rewrite Wr in P.
+            rewrite andb_false_r in P. discriminate P.
+          * destruct (reach_good t0 R0) as (TI0 & OI0).
+            assert (rdir p) as Rp by (destruct OI0 as (l0 & _ & _ & _ & _ & V5 & _); exact (proj1 (V5 p In0))).
+            pose proof (Od p (on_chain d p Rd (or_intror Rp) Up)) as P. unfold pass in P.
+            rewrite <- (filter_as_above t0 p TI0 OI0 In0), Cd in P.
+            assert (String.eqb p base = false) as E by (apply String.eqb_neq; apply Nb; exact rep_o).
+            rewrite E in P. discriminate P.
+          * rewrite rep_d in X. discriminate X.
+    Qed.
+  End Order.
 End Complete.
 
 (* ---------- from_origin *)
@@ -733,6 +1090,131 @@ Proof.
       apply (rd_child ex_fs "/o" "/o/test" "/o/test/sub" R1). vm_compute. tauto.
 Qed.
 
+(* ---------- the exact result of from_origin (repaired code) and its independence from the listing order *)
+Definition fo_files (fs : fsys) (origin : string) (explicit : list string) (excludes : option string) : list dfile :=
+  t_files (fo_init (fun _ => []) fs origin explicit excludes).
+Definition fo_base (content : string -> list string) (fs : fsys) (origin : string) (explicit : list string) (excludes : option string) : list ifile :=
+  map (as_ifile content) (fo_files fs origin explicit excludes) ++ [(Some origin, vcs_dir_globs)].
+
+Lemma fo_init_shape content fs origin explicit excludes :
+  fo_init content fs origin explicit excludes
+  = mkT [origin] [] (filter_new origin (fo_base content fs origin explicit excludes)) (fo_files fs origin explicit excludes).
+Proof. unfold fo_init, fo_base, fo_files, fo_init. cbv zeta. cbn [t_files]. rewrite add_file_equiv. reflexivity. Qed.
+
+Lemma fo_base_abs content fs origin explicit excludes :
+  absolute origin -> forall d l, In (Some d, l) (fo_base content fs origin explicit excludes) -> absolute d.
+Proof.
+  intros Ao d l H. unfold fo_base, fo_files, fo_init in H. cbv zeta in H. cbn [t_files] in H.
+  apply in_app_or in H. destruct H as [H|[H|[]]]; [|injection H as <- _; exact Ao].
+  apply in_map_iff in H. destruct H as (f & Ef & Hf). unfold as_ifile in Ef. injection Ef as Ed _.
+  apply in_app_or in Hf. destruct Hf as [Hf|Hf].
+  - apply in_app_or in Hf. destruct Hf as [Hf|Hf].
+    + apply in_map_iff in Hf. destruct Hf as (x & <- & _). cbn [d_in] in Ed. injection Ed as <-. exact Ao.
+    + destruct excludes as [e|]; [|destruct Hf]. destruct (find_file fs e); [|destruct Hf]. destruct Hf as [<-|[]]. discriminate Ed.
+  - apply in_flat_map in Hf. destruct Hf as (nt & _ & Hf). cbv zeta in Hf. destruct (find_file fs (join origin (fst nt))); [|destruct Hf].
+    destruct Hf as [<-|[]]. cbn [d_in] in Ed. injection Ed as <-. exact Ao.
+Qed.
+
+(* EXACTNESS: the result is the explicit / origin-level files plus the ignore files of every open reachable directory *)
+Theorem from_origin_exact gm content fs origin watches explicit excludes :
+  (forall e, In e fs -> absolute (fst e)) -> absolute origin -> NoDup (map fst fs) -> fs_get fs origin = Some KDir ->
+  forall f, In f (from_origin gm content true true true fs origin watches explicit excludes) <->
+            In f (fo_files fs origin explicit excludes) \/
+            exists d, rdir fs origin d /\ Open gm content fs origin watches (fo_base content fs origin explicit excludes) d /\ In f (dirfiles fs d).
+Proof.
+  intros Hfs Ao ND Od f. rewrite from_origin_walk, fo_init_shape.
+  exact (walk_exact gm content true true true fs origin watches Hfs Ao ND eq_refl eq_refl eq_refl Od
+           (fo_base content fs origin explicit excludes) (fo_base_abs content fs origin explicit excludes Ao) (fo_files fs origin explicit excludes) f).
+Qed.
+
+(* two listings that present the same file system *)
+Definition same_fs (fs fs' : fsys) : Prop := forall p, fs_get fs p = fs_get fs' p.
+
+Lemma children_kdir_iff fs d c : NoDup (map fst fs) ->
+  (In (c, KDir) (children fs d) <-> fs_get fs c = Some KDir /\ path_parent c = Some d).
+Proof.
+  intro ND. unfold children. rewrite filter_In. cbn [fst]. split.
+  - intros (H & P). split; [apply (nodup_get fs ND); exact H|]. destruct (path_parent c) as [q|]; [|discriminate P].
+    apply String.eqb_eq in P. subst q. reflexivity.
+  - intros (G & P). split; [apply fs_get_in; exact G | rewrite P; apply String.eqb_refl].
+Qed.
+
+Lemma same_fs_rdir fs fs' base : NoDup (map fst fs) -> NoDup (map fst fs') -> same_fs fs fs' -> forall d, rdir fs base d -> rdir fs' base d.
+Proof.
+  intros ND ND' S d. induction 1 as [Hb|d c _ IH Hc].
+  - apply rd_base. rewrite <- S. exact Hb.
+  - apply (rd_child fs' base d c IH). apply (children_kdir_iff fs' d c ND'). rewrite <- S. apply (children_kdir_iff fs d c ND). exact Hc.
+Qed.
+
+Lemma same_fs_find fs fs' : same_fs fs fs' -> forall p, find_file fs p = find_file fs' p.
+Proof. intros S p. unfold find_file. rewrite (S p). reflexivity. Qed.
+
+Lemma same_fs_dirfiles fs fs' : same_fs fs fs' -> forall k, dirfiles fs k = dirfiles fs' k.
+Proof.
+  intros S k. unfold dirfiles. apply flat_map_ext. intro nt. rewrite (same_fs_find fs fs' S). reflexivity.
+Qed.
+
+Lemma same_fs_fo_files fs fs' origin explicit excludes : same_fs fs fs' -> fo_files fs origin explicit excludes = fo_files fs' origin explicit excludes.
+Proof.
+  intro S. unfold fo_files, fo_init. cbv zeta. cbn [t_files]. f_equal; [f_equal|].
+  - destruct excludes as [e|]; [rewrite (same_fs_find fs fs' S e)|]; reflexivity.
+  - apply flat_map_ext. intro nt. cbv zeta. rewrite (same_fs_find fs fs' S). reflexivity.
+Qed.
+
+Lemma same_fs_open gm content fs fs' origin watches Bf : same_fs fs fs' -> forall d, Open gm content fs origin watches Bf d -> Open gm content fs' origin watches Bf d.
+Proof.
+  intros S d O a Ha. specialize (O a Ha). unfold pass, Fc, above_files in *.
+  assert (flat_map (dirfiles fs') (anc origin a) = flat_map (dirfiles fs) (anc origin a)) as -> by (apply flat_map_ext; intro k; symmetry; apply same_fs_dirfiles; exact S).
+  exact O.
+Qed.
+
+(* ORDER INDEPENDENCE: two listings of the same file system, in whatever order, give the same set of files *)
+Theorem from_origin_order_independent gm content fs fs' origin watches explicit excludes :
+  (forall e, In e fs -> absolute (fst e)) -> NoDup (map fst fs) ->
+  (forall e, In e fs' -> absolute (fst e)) -> NoDup (map fst fs') ->
+  absolute origin -> fs_get fs origin = Some KDir -> same_fs fs fs' ->
+  forall f, In f (from_origin gm content true true true fs origin watches explicit excludes) ->
+            In f (from_origin gm content true true true fs' origin watches explicit excludes).
+Proof.
+  intros Hfs ND Hfs' ND' Ao Od S f H.
+  assert (fs_get fs' origin = Some KDir) as Od' by (rewrite <- S; exact Od).
+  apply (from_origin_exact gm content fs origin watches explicit excludes Hfs Ao ND Od) in H.
+  apply (from_origin_exact gm content fs' origin watches explicit excludes Hfs' Ao ND' Od').
+  destruct H as [H|(d & Rd & Op & Hf)].
+  - left. rewrite <- (same_fs_fo_files fs fs' origin explicit excludes S). exact H.
+  - right. exists d. split; [apply (same_fs_rdir fs fs' origin ND ND' S); exact Rd|].
+    split; [|rewrite <- (same_fs_dirfiles fs fs' S); exact Hf].
+    unfold fo_base. rewrite <- (same_fs_fo_files fs fs' origin explicit excludes S).
+    apply (same_fs_open gm content fs fs' origin watches _ S). exact Op.
+Qed.
+
+(* a permutation of a listing presents the same file system *)
+Lemma perm_same_fs fs fs' : NoDup (map fst fs) -> Permutation.Permutation fs fs' -> NoDup (map fst fs') /\ same_fs fs fs'.
+Proof.
+  intros ND P.
+  assert (NoDup (map fst fs')) as ND' by (apply (Permutation.Permutation_NoDup (Permutation.Permutation_map fst P)); exact ND).
+  split; [exact ND'|]. intro p.
+  destruct (fs_get fs p) as [k|] eqn:G.
+  - symmetry. apply (nodup_get fs' ND'). apply (Permutation.Permutation_in _ P). apply fs_get_in. exact G.
+  - destruct (fs_get fs' p) as [k'|] eqn:G'; [|reflexivity].
+    apply fs_get_in in G'. apply (Permutation.Permutation_in _ (Permutation.Permutation_sym P)) in G'.
+    rewrite (nodup_get fs ND p k' G') in G. discriminate G.
+Qed.
+
+Theorem from_origin_permutation gm content fs fs' origin watches explicit excludes :
+  (forall e, In e fs -> absolute (fst e)) -> NoDup (map fst fs) -> absolute origin -> fs_get fs origin = Some KDir ->
+  Permutation fs fs' ->
+  forall f, In f (from_origin gm content true true true fs origin watches explicit excludes) <->
+            In f (from_origin gm content true true true fs' origin watches explicit excludes).
+Proof.
+  intros Hfs ND Ao Od P f. destruct (perm_same_fs fs fs' ND P) as (ND' & S).
+  assert (forall e, In e fs' -> absolute (fst e)) as Hfs' by (intros e He; apply Hfs; apply (Permutation_in _ (Permutation_sym P)); exact He).
+  assert (same_fs fs' fs) as S' by (intro p; symmetry; apply S).
+  split.
+  - apply (from_origin_order_independent gm content fs fs' origin watches explicit excludes); assumption.
+  - apply (from_origin_order_independent gm content fs' fs origin watches explicit excludes); try assumption. rewrite <- S. exact Od.
+Qed.
+
 (* the repaired code: a reachable directory is visited unless it lies in or below a VCS metadata directory, a directory unrelated
    to the explicit watches, or a directory that the ignore files above it ignore -- evaluated by the filter that already holds every
    ignore file of every directory above it *)
@@ -744,13 +1226,13 @@ Theorem from_origin_complete_repaired gm content fs origin watches explicit excl
     (exists p, is_under p d = true /\
        (vcs_dir p = true \/ watch_related watches p = false \/
         exists t0, reach gm content true true true fs origin watches (fo_init content fs origin explicit excludes) t0 /\
-                   check_dir gm true (t_filter t0) p = false /\ p <> origin /\
+                   In p (t_visit t0) /\ check_dir gm true (t_filter t0) p = false /\ p <> origin /\
                    forall a, rdir fs origin a -> is_under a p = true -> a <> p -> Done fs t0 a)).
 Proof.
   intros Hfs Ho ND d Hd.
   destruct (from_origin_complete gm content true true true fs origin watches explicit excludes Hfs Ho ND d Hd) as [D|(p & Up & R)]; [left; exact D|].
-  right. exists p. split; [exact Up|]. destruct R as [R|[R|[(t0 & A & B & C & D)|(X & _)]]]; [left; exact R | right; left; exact R | | discriminate X].
-  right. right. exists t0. split; [exact A|]. split; [exact B|]. split; [exact (C eq_refl) | exact D].
+  right. exists p. split; [exact Up|]. destruct R as [(R & _)|[(R & _)|[(t0 & A & A2 & B & C & D)|(X & _)]]]; [left; exact R | right; left; exact R | | discriminate X].
+  right. right. exists t0. split; [exact A|]. split; [exact A2|]. split; [exact B|]. split; [exact (C eq_refl) | exact D].
 Qed.
 
 (* as pinned, a directory was checked against the filter while its parent was being listed, before the parent's own ignore files
